@@ -108,6 +108,7 @@ func loadWorld(repo string, overlay map[string][]byte, withDeps bool) (*World, e
 		addAnon(fn)
 	}
 	sort.Slice(w.modFns, func(i, j int) bool { return w.modFns[i].String() < w.modFns[j].String() })
+	resolveAnchors(w)
 	distCtors = ctorsOf(w, pRest, "Distributor")
 	logMapBuilders = findLogMapBuilders(w)
 	return w, nil
